@@ -239,13 +239,18 @@ class DriverSim:
             self.p_fail = ch.choice([0, 1, 3, 6])  # /10
             self.horizon = ch.choice([MAX_ATTEMPTS, 4, 10, 25])
             self.aim = ch.flag()
+            # scripted failure patterns sit on the boundaries by construction (budget minus one, exactly the budget,
+            # every landing step once, the step right after every landing, every other attempt)
+            self.pattern = ch.choice(["iid", "iid", "iid", "streak", "streak_full", "alternate", "landing", "after_landing"])
+            if self.family == "mech_lin":
+                self.pattern = "iid"
             if self.family == "mech_lin":
                 self.p_fail = 0  # a failed solve of a linear problem raises by design (outside the statements)
                 self.predictor = False
         self.tr.emit("config", {"family": self.family, "cell": self.cell_size, "fracs": self.fracs, "ts_depth": self.ts_depth, "it_depth": self.it_depth,
                                 "tm": {k: (list(v) if isinstance(v, (list, tuple)) else v) for k, v in self.tm_kw.items()},
                                 "max_iter": self.max_iter, "div_tol": float(self.div_tol), "res_tol": float(self.res_tol), "predictor": self.predictor, "limiter": self.limiter, "kinds": self.kinds, "p_fail": self.p_fail,
-                                "horizon": self.horizon, "export": self.export})
+                                "horizon": self.horizon, "pattern": self.pattern, "export": self.export})
 
     def build(self, folder="viz", restart_options=None, tm=None):
         try:
@@ -310,10 +315,34 @@ class DriverSim:
         ch = self.ch
         with ch.span("attempt"):
             self.fault = None
-            if self.p_fail and self.attempt <= self.horizon:
-                interesting = landing or first or final_step or self.prev_failed
-                p = min(9, self.p_fail * 2) if (self.aim and interesting) else self.p_fail
-                if ch.flag(p, 10):
+            pat = getattr(self, "pattern", "iid")
+            if pat != "iid" and self.attempt == 1:
+                self.tr.probe("scripted_failure_pattern")
+            scripted = None
+            if pat != "iid" and self.attempt <= 40:
+                cf = self.clock.consec_fail
+                if pat == "streak":
+                    scripted = cf < tm.recomp_max - 1
+                elif pat == "streak_full":
+                    scripted = cf < tm.recomp_max
+                elif pat == "alternate":
+                    scripted = not self.prev_failed
+                elif pat == "landing":
+                    scripted = (landing or final_step) and not self.prev_failed
+                elif pat == "after_landing":
+                    scripted = getattr(self, "just_landed", False) and not self.prev_failed
+            if scripted is not None:
+                fire = scripted
+            elif pat != "iid":
+                fire = False
+            else:
+                fire = False
+                if self.p_fail and self.attempt <= self.horizon:
+                    interesting = landing or first or final_step or self.prev_failed
+                    p = min(9, self.p_fail * 2) if (self.aim and interesting) else self.p_fail
+                    fire = ch.flag(p, 10)
+            if True:
+                if fire:
                     kind = ch.choice(self.kinds)
                     # the Newton loop runs while num_iteration <= max_iterations, i.e. up to max_iterations + 1 iterations:
                     # the last of them is a fault point of its own
@@ -415,6 +444,7 @@ class DriverSim:
             tr.op("step", "landed" if self.ctx["landing"] else "conv", t_att, k)
             tr.sim_steps += 1
             self.prev_failed = False
+            self.just_landed = bool(self.ctx["landing"])
         else:
             kind = self.fault[0] if (self.fault and self.fault_fired) else "real"
             if self.prev_failed:
@@ -509,7 +539,7 @@ class DriverSim:
 # --------------------------------------------------------------------------------------
 PROBES = ["fault_at_newton_iteration_1", "failure_right_after_failure", "failure_on_schedule_landing_step", "failure_on_first_step",
           "failure_on_final_step", "depth3_window_filled", "budget_exhausted_raise", "fail_at_dt_min_raise", "real_divergence_or_nonconvergence",
-          "step_back_S5", "run_reached_final_time", "attempt_cap_reached", "config_rejected", "full_history_ge_3_steps", "predictor_initial_guess", "limiter_rewrites_accepted_solution", "fault_at_last_permitted_newton_iteration"]
+          "step_back_S5", "run_reached_final_time", "attempt_cap_reached", "config_rejected", "full_history_ge_3_steps", "predictor_initial_guess", "limiter_rewrites_accepted_solution", "fault_at_last_permitted_newton_iteration", "scripted_failure_pattern"]
 
 
 def make_run(owner: str, families=("flow",)):
